@@ -122,9 +122,9 @@ UpdateArray(S, lab, byData, ob, da, vals, append) ==
 \* ------------------------------------------------------------------ storage: attribute records
 \* record = [id, kind in {"hole","data","pg","empty"}, name, keys (hole: <<[n,d]>> = 'Property:<n>': d),
 \*           props (pg: Properties), ptype (pg)]
-\*           ad = 'Allow delete' (holes and data; the python object's flag and the record change together:
+\*           pub = 'Public' (holes), ad = 'Allow delete' (holes and data; the python object's flag and the record change together:
 \*           Entity.allow_delete setter -> update_attributes(entity, "attributes"))
-Rec(id, kind, name) == [id |-> id, kind |-> kind, name |-> name, keys |-> <<>>, props |-> <<>>, ptype |-> "", ad |-> TRUE]
+Rec(id, kind, name) == [id |-> id, kind |-> kind, name |-> name, keys |-> <<>>, props |-> <<>>, ptype |-> "", ad |-> TRUE, pub |-> TRUE]
 RecIdx(S, id) == IndexOf(S.akeys, id)
 HasRec(S, id) == RecIdx(S, id) # 0
 \* Concatenator.get_concatenated_attributes (405-430): an unknown uid APPENDS an empty record
@@ -333,6 +333,7 @@ ApiView(S) == [h \in Holes |->
                  [live |-> TRUE,
                   names |-> KeyNames(GetRec(S, h)),
                   ad |-> GetRec(S, h).ad,                                                \* hole.allow_delete
+                  pub |-> GetRec(S, h).pub,                                              \* hole.public
                   children |-> [i \in DOMAIN S.hs[h].ch |-> S.hs[h].ch[i].name],     \* Data objects in hole.children
                   vals |-> [k \in DOMAIN GetRec(S, h).keys |->
                               [n |-> GetRec(S, h).keys[k].n, v |-> ReadLive(S, h, GetRec(S, h).keys[k].n),
@@ -428,7 +429,7 @@ Done(S, act, args, out, dev, tgt) ==
     /\ s' = [Settle(S) EXCEPT !.sess = IF ~TrackSession THEN "mixed"
                                        ELSE IF act = "Reopen" THEN (IF out = "ok" THEN "fresh" ELSE "mixed")
                                        ELSE IF out = "refused" THEN s.sess
-                                       ELSE IF act \in {"Protect", "Rename"} /\ s.sess \in {"fresh", "attr"} THEN "attr"
+                                       ELSE IF act \in {"Protect", "Rename", "SetPublic"} /\ s.sess \in {"fresh", "attr"} THEN "attr"
                                        ELSE "mixed"]
     /\ last' = [act |-> act, args |-> args, out |-> out, dev |-> dev, tgt |-> tgt]
 Refused(act, args) == Done(s, act, args, "refused", {}, NoTgt)
@@ -658,6 +659,20 @@ CopyGroup ==
          IN Done(IF hit THEN G[Len(ghosts)] ELSE s, "CopyGroup", [mode |-> mode, holes |-> holes], "ok",
                  IF hit THEN {"HoleRemovalKeepsGroupChild"} ELSE {}, NoTgt)
 
+\* workspace.save_entity(hole) for a hole that is already stored: add_save_concatenated (117-142) again - the record is
+\* rewritten with the same content, the uid is already in the object-id list ("if uid not in ...": unchanged), the
+\* survey slice is removed and appended again.  Logically nothing changes, in memory or in the file.
+SaveHoleAgain ==
+    \E h \in Holes :
+      /\ Usable(h)
+      /\ Done(UpdateArray(s, "Surveys", FALSE, h, 0, Surv(h), TRUE), "SaveHoleAgain", [h |-> h], "ok", {}, NoTgt)
+
+\* hole.public = False : an attribute edit of the hole (entity.py -> update_attributes(entity, "attributes"))
+SetPublic ==
+    \E h \in Holes :
+      /\ Usable(h) /\ GetRec(s, h).pub
+      /\ Done(SetRec(s, h, [GetRec(s, h) EXCEPT !.pub = FALSE]), "SetPublic", [h |-> h], "ok", {}, NoTgt)
+
 \* ------------------------------------------------------------------ round 3 actions
 \* workspace.remove_entity(comment) | group.remove_children([comment]) for the plain child of the group.
 \* As built Concatenator.remove_children (462-478) only calls remove_entity, which knows concatenated entities only:
@@ -749,6 +764,8 @@ Next ==
                   \/ Enabled("Reopen") /\ Reopen
                   \/ Enabled("CopyGroup") /\ CopyGroup
                   \/ Enabled("Protect") /\ Protect
+                  \/ Enabled("SaveHoleAgain") /\ SaveHoleAgain
+                  \/ Enabled("SetPublic") /\ SetPublic
                   \/ Enabled("RemovePlainChild") /\ RemovePlainChild
                   \/ Enabled("CopyEdit") /\ CopyEdit
                   \/ Enabled("AddObjectData") /\ AddObjectData
